@@ -28,6 +28,7 @@ func checkC07(c *Ctx) {
 	c.Rule("C07/R8", ".config in a filter and .unit in a projection are rejected with a syntax error")
 
 	c.Rule("C07/R12", "any string is usable as a quoted literal: every token returned by the quoted-word scanner has the quoted-word kind or is the error token, independent of its text")
+	c.Rule("C07/R16", "quoted words: wherever a parser method accepts a token of kind word it accepts kind quoted-word to the same effect; the text of every quoted-word token is the first result of strconv.Unquote")
 	c.Rule("C07/R15", "values and keywords: the match constructor allocates a match only under token kinds within {word, quoted word, regexp}; the word scanner produces the AND / OR keyword kinds exactly where the word == \"AND\" / \"OR\"")
 	c.Rule("C07/R14", "never a panic by overrun: where the expression scanners test a position against the length of the text (i+g < len) every later read at that base stays within what was tested (no read at i+o with o > g, as happens when the index is stepped between the test and the read)")
 	c.Rule("C07/R13", "never a hang: in the expression parsers a loop that reads tokens from a cursor advances the cursor on every path back to its head")
@@ -110,6 +111,7 @@ func checkC07(c *Ctx) {
 	c07Progress(c, p)
 	c07StaleGuards(c, p)
 	c07ValuesAndKeywords(c, p)
+	c07QuotedEverywhere(c, p)
 }
 
 // byteIndexOf: v is a byte read s[i] (string Lookup or load of IndexAddr); returns the index value.
@@ -1537,4 +1539,92 @@ func c07ValuesAndKeywords(c *Ctx, p *Prog) {
 		})
 	}
 	c.Floor(R, "keyword tokens produced by the word scanner", n, 2)
+}
+
+// c07QuotedEverywhere (C07/R16): (a) wherever the filter parser accepts a bare word it accepts a quoted word: in the
+// parser methods, a test of a token's kind against 'w' that leads somewhere has a test of the same token against 'q'
+// leading to the same place; (b) a quoted word denotes what strconv.Unquote says: the text of every 'q' token the
+// tokenizer makes is the first result of strconv.Unquote.
+func c07QuotedEverywhere(c *Ctx, p *Prog) {
+	const R = "C07/R16"
+	pk := "benchproc/internal/parse"
+	kindF := p.Field(pk, "tok", "Kind")
+	if kindF == nil {
+		c.Undecided(R, "anchor:tok.Kind", "", "not found")
+		return
+	}
+	n := 0
+	for _, fn := range p.Funcs(pk) {
+		if fn.Signature.Recv() == nil || recvName(fn.Signature.Recv().Type()) != "parser" {
+			continue
+		}
+		// kind tests: block -> (token base, kind, true successor)
+		type kt struct {
+			base ssa.Value
+			k    int64
+			to   *ssa.BasicBlock
+			pos  token.Pos
+		}
+		var tests []kt
+		for _, b := range fn.Blocks {
+			ifi, ok := b.Instrs[len(b.Instrs)-1].(*ssa.If)
+			if !ok {
+				continue
+			}
+			bo, ok := ifi.Cond.(*ssa.BinOp)
+			if !ok || bo.Op != token.EQL {
+				continue
+			}
+			f, base := loadOfField(bo.X)
+			k, isK := constInt(bo.Y)
+			if f != kindF || !isK {
+				continue
+			}
+			to := b.Succs[0]
+			tests = append(tests, kt{base, k, to, bo.Pos()})
+		}
+		for _, t := range tests {
+			if t.k != 'w' {
+				continue
+			}
+			n++
+			has := false
+			for _, u := range tests {
+				if u.k == 'q' && u.to == t.to && (u.base == t.base || sameValue(u.base, t.base) || sameAddr(u.base, t.base)) {
+					has = true
+				}
+			}
+			c.Check(has, R, fmt.Sprintf("%s:quoted-where-bare#%d", fnName(fn), n), p.pos(t.pos), "a quoted word is accepted where a bare word is",
+				"the parser accepts a bare word here but not a quoted word: a key that needs quoting (\"two words\":v) is rejected in this position although the same key is accepted elsewhere in the expression")
+		}
+	}
+	c.Floor(R, "places where the filter parser accepts a bare word", n, 3)
+	// (b)
+	nq := 0
+	for _, fn := range p.Funcs(pk) {
+		eachInstr(fn, func(_ *ssa.BasicBlock, in ssa.Instruction) {
+			call, ok := in.(*ssa.Call)
+			if !ok || len(call.Call.Args) < 3 {
+				return
+			}
+			sc := call.Call.StaticCallee()
+			if sc == nil || sc.Name() != "tok" || sc.Signature.Recv() == nil {
+				return
+			}
+			args := callArgs(&call.Call)
+			if k, ok := constInt(args[1]); !ok || k != 'q' {
+				return
+			}
+			nq++
+			okU := false
+			if ex, ok := args[2].(*ssa.Extract); ok && ex.Index == 0 {
+				if uc, ok := ex.Tuple.(*ssa.Call); ok && objIs(calleeObj(&uc.Call), "strconv", "", "Unquote") {
+					okU = true
+				}
+			}
+			c.Check(okU, R, fmt.Sprintf("%s:quoted-text#%d", fnName(fn), nq), p.pos(call.Pos()), "the text of a quoted-word token is strconv.Unquote of what was scanned",
+				"the text of a quoted-word token is not the result of strconv.Unquote: a hand-made decoding has to get every escape right — \\x80..\\xff denote single bytes, not the runes U+0080..U+00FF, so a quoted non-UTF-8 key or value denotes another string than the one written")
+		})
+	}
+	c.Floor(R, "quoted-word tokens made by the tokenizer", nq, 1)
 }
